@@ -329,7 +329,8 @@ pub fn run(spec: &RunSpec) -> ImplOut {
                     });
                 }
             }
-            out.sort();
+            // stable, by file only: the order of a file's blocks is the implementation's (C03: source order)
+            out.sort_by(|a, b| a.file.cmp(&b.file));
             Outcome::Ok(out)
         }
         Err(p) => Outcome::Panic(panic_msg(p)),
